@@ -313,6 +313,12 @@ def run(ctx):
                 ctx.broke("C18 helper imported uberjob from the wrong place", rep["uberjob"])
             if rep.get("warm_up_error"):
                 ctx.fail("extreme-markers", "TZ=%s: a run with a source dated datetime.min and fresh_time=datetime.max raised %s" % (z, rep["warm_up_error"]), {"zone": z})
+            for what, sk, src_kind, got, want, err in rep.get("markers", []):
+                ctx.case(("extreme-marker", z, what, sk, src_kind))
+                if got != want:
+                    ctx.fail("extreme-markers", "TZ=%s: %s (%s), the dependent value stored at 2024-06-01 12:00 (%s): %s; the marker denotes an instant %s every ordinary one in every zone, so the value must %sbe rebuilt"
+                             % (z, what, src_kind, sk, "the run raised " + err if err else ("rebuilt" if got else "not rebuilt"), "after" if want else "before", "" if want else "not "),
+                             {"zone": z, "marker": what, "stored": sk, "source": src_kind})
             if not rep["zone_ok"]:
                 ctx.notes.setdefault("zones_skipped", []).append("%s: the C library does not honour TZ=%s (tzname %r)" % (z, z, rep["tzname"]))
                 continue
